@@ -21,9 +21,46 @@
   * `C10_protected_reach`  at every reached state `uUpdateAttrs` naming `time`, the track / lineage
                            key or any annotator key is refused with `err value`, state unchanged.
   "What an annotator can manage" (`annotKeys`) is a constant of the run (`avail_run`).
+
+  Part 2 — values are current after `enable … recompute` at every state reached by an admissible
+  session that mixes switching with edits, undo and redo:
+  * `C10_inv_not_preserved_disable / _tid / _lin`  (witnesses) the bundle invariant `R3D.Inv` is NOT
+        preserved: `disable` leaves the stored values behind (visible, no longer registered);
+        recomputing the track ids / lineage ids inside a history renumbers them while the recorded
+        `UpdateTrackIDs` still hold the old numbers, and a later undo writes those back — two
+        segment heads with one track id, an edge across two lineage ids.
+  * `C10_weak_invariant_reach`  (full, for the admissibility `Ft.R5B.SessOK'`) the WEAK invariant
+        `Ft.R5B.WInv` — the bundle invariant of the annotation-free core — holds at every reached
+        state; hence forward binary forest, labels ↔ nodes (`SegOK`), unique non-zero ids, whole
+        frames.  Proof: every primitive, composite, commit, paint protocol, undo and redo commutes
+        with forgetting the measurement features (`Ft.R5B.core_run`), `enable` / `disable` do not
+        move the core, and the core run is a session of `C03_reach`.  In particular an entry
+        recorded under one registry is undone / redone correctly under another one.
+  * `C10_current_after_enable_reach_partial`  at every reached state `enable ks true` makes every
+        value of every `k ∈ ks` current (`MeasOK` restricted to `ks`; ids: `C10_enable_ids_current`).
+        Partial only in the admissibility: recomputing `enable` of the track-id / lineage key and
+        `disable` of them INSIDE the session are excluded (see the witnesses); the final `enable`
+        may name any key.
+
+  Part 3 — a disabled feature is frozen:
+  * `C10_disabled_frozen_reach_partial`  once `k` is an annotator key that is neither active nor
+        registered (the situation right after `disable [k]`), the column `col k` (node id ↦ stored
+        value of `k`, in insertion order) of the state reached by ANY operation list without
+        `enable` of `k` — any arguments, accepted, refused or raising, undo and redo included, no
+        invariant, no admissibility — is the old column with the entries of some nodes dropped,
+        every other entry unchanged and in place, followed by entries of nodes that are not among the
+        survivors (a node deleted and re-created re-appears at the end).  Hypotheses: no add-node of
+        the list supplies a value under `k`, and no `DeleteNode` recorded in the history at the start
+        carries a value of `k` (e.g. empty history, or recorded while `k` was off).  Node part only.
+  * `C10_disabled_frozen_needs_record_condition`  (witness) without the condition on the recorded
+        `DeleteNode`s the timeline-free statement is false: the inverse of such a record, applied in
+        a state where the node exists, overwrites the stored value of a node that was never deleted.
 -/
-import FtProofs.R5BLemmas
-open Ft Ft.St Ft.R5B List
+import FtProofs.R5BReachLemmas
+import FtProofs.R5BShapeLemmas
+import FtProofs.R5BFrozenLemmas
+import FtProofs.Props.C04_R2F
+open Ft Ft.St Ft.R5B Ft.R3D List
 
 namespace Ft.R5B
 /-- a session on `exSeg` (array, regionprops key 10 and IoU key 11 active, static key 7) that mixes
@@ -102,3 +139,272 @@ example : (run exSeg exSess).iouActive = false ∧ 11 ∉ (run exSeg exSess).reg
     (C10_protected_reach exSeg exSess 1 _ ⟨(10, .tok 2), by simp, Or.inr (by decide)⟩).2.1,
     (C10_protected_reach exSeg exSess 3 _ ⟨(1, .tok 9), by simp, Or.inr (by decide)⟩).2.1⟩
 #print axioms C10_protected_reach
+
+/-! ## Part 2 — the weak invariant and `enable … recompute` at every reached state -/
+
+namespace Ft.R5B
+open C01R3CEx C02R3DEx C01R3DEx
+
+/-- a session on the array state `XA` (regionprops key 10 and IoU key 11 active and current) mixing
+    switching with edits, undo and redo: a paint, disable area, delete node 5 (saved WITHOUT area),
+    enable IoU without recomputation (already on), undo (node 5 back, under the registry without
+    area), undo (area off: the paint is undone under a different registry than it was recorded),
+    redo, disable IoU, a query, enable area WITHOUT recomputation, delete an edge -/
+def exSessX : List Op' :=
+  [.paint 3 [([5], 2)] 9 false, .disable [10], .delNode 5, .enable [11] false, .undo, .undo, .redo,
+   .disable [11], .qHasTrack 1 0, .enable [10] false, .delEdge (1, 2)]
+
+theorem exSessX_ok : SessOK' XA exSessX := by
+  have p1 : OpPre XA (.paint 3 [([5], 2)] 9 false) := by
+    intro g hg; rw [XA_seg] at hg; cases hg; exact ⟨1, by decide, by decide⟩
+  exact ⟨opOK'_edit _ _ rfl p1, opOK'_disable _ _ (by decide), opOK'_edit _ _ rfl trivial,
+    opOK'_enable_plain _ _ (by decide), .inl rfl, .inl rfl, .inr (.inl rfl), opOK'_disable _ _ (by decide),
+    .inr (.inr (.inl trivial)), opOK'_enable_plain _ _ (by decide), opOK'_edit _ _ rfl trivial, trivial⟩
+end Ft.R5B
+open C01R3CEx C02R3DEx C01R3DEx
+
+/-- WITNESS. `disable` alone breaks the bundle invariant `R3D.Inv` ("the visible node attributes are
+    registered features"): the stored values of the disabled feature stay on the nodes. -/
+theorem C10_inv_not_preserved_disable :
+    Inv XA ∧ (XA.step (.disable [10])).2 = .ok ∧ ¬ Inv (XA.step (.disable [10])).1 := by
+  refine ⟨XA_inv, by decide, fun h => ?_⟩
+  exact absurd (h.node.registered 1 10 (by decide)) (by decide)
+#print axioms C10_inv_not_preserved_disable
+
+/-- WITNESS (false of the model, hence of the code). Recomputing the track ids inside a history
+    and then undoing an older edit breaks C04: on `XA`, delete the division edge (1,2) — node 3 takes
+    over the track id 1 of its parent, the record keeps "3 had id 3" —, `enable [track id] recompute`
+    renumbers (the isolated node 5 becomes track 3), `undo` gives node 3 its recorded id 3 back:
+    the two segment heads 3 and 5 carry the same track id.  All three calls are accepted. -/
+theorem C10_inv_not_preserved_tid :
+    Inv XA ∧
+    (XA.step (.delEdge (1, 2))).2 = .ok ∧ ((run XA [.delEdge (1, 2)]).step (.enable [keyTid] true)).2 = .ok ∧
+    ((run XA [.delEdge (1, 2), .enable [keyTid] true]).step .undo).2 = .bool true ∧
+    (run XA [.delEdge (1, 2), .enable [keyTid] true, .undo]).Forest ∧
+    ¬ (run XA [.delEdge (1, 2), .enable [keyTid] true, .undo]).TidOK := by
+  refine ⟨XA_inv, by decide, by decide, by decide, (forestB_iff _).1 (by decide), fun h => ?_⟩
+  have he : (run XA [.delEdge (1, 2), .enable [keyTid] true, .undo]).edgeList = [(1, 3), (2, 4), (1, 2)] := by
+    decide
+  have h3 : (run XA [.delEdge (1, 2), .enable [keyTid] true, .undo]).IsHead 3 := by
+    refine ⟨by decide, fun p hp => ?_⟩
+    rw [he] at hp
+    have : p = 1 := by simpa using hp
+    subst this
+    decide
+  have h5 : (run XA [.delEdge (1, 2), .enable [keyTid] true, .undo]).IsHead 5 := by
+    refine ⟨by decide, fun p hp => ?_⟩
+    rw [he] at hp
+    simp at hp
+  exact absurd (h.heads 3 5 h3 h5 (by decide)) (by decide)
+#print axioms C10_inv_not_preserved_tid
+
+/-- WITNESS (false of the model, hence of the code). The same for lineage ids: delete node 1 and undo
+    (node 1 is re-inserted last), delete the edge (1,2) (the subtree of 2 gets a new lineage, the
+    record keeps the old one), `enable [lineage id] recompute` renumbers in insertion order (the
+    lineage of 1 is now 2), `undo` re-adds the edge (1,2) and writes the RECORDED lineage 1 on the
+    subtree of 2: an edge whose end points carry different lineage ids. -/
+theorem C10_inv_not_preserved_lin :
+    Inv XA ∧
+    (run XA [.delNode 1, .undo, .delEdge (1, 2), .enable [keyLin] true, .undo]).Forest ∧
+    ((run XA [.delNode 1, .undo, .delEdge (1, 2)]).step (.enable [keyLin] true)).2 = .ok ∧
+    ((run XA [.delNode 1, .undo, .delEdge (1, 2), .enable [keyLin] true]).step .undo).2 = .bool true ∧
+    ¬ (run XA [.delNode 1, .undo, .delEdge (1, 2), .enable [keyLin] true, .undo]).LinOK := by
+  refine ⟨XA_inv, (forestB_iff _).1 (by decide), by decide, by decide, fun h => ?_⟩
+  exact absurd (h.along (1, 2) (by decide)) (by decide)
+#print axioms C10_inv_not_preserved_lin
+
+/-- FULL (for the admissibility `SessOK'`: edits with their argument preconditions, undo, redo,
+    queries, `enable` / `disable` of any measurement feature in any order, recomputing or not;
+    excluded: recomputing `enable` and `disable` of the track-id / lineage key).  From a start state
+    with the bundle invariant, an array of whole frames and an empty history, the WEAK invariant
+    holds at every reached state (also after every prefix): the annotation-free core satisfies the
+    bundle invariant — in particular the state is a forward binary forest, labels and nodes
+    correspond one to one (`SegOK`), ids are unique and non-zero, the array consists of whole frames
+    — and the core of the reached state is the state the core reaches when the switches are removed
+    from the session (history independence of everything but the measurement values). -/
+theorem C10_weak_invariant_reach (s0 : St) (h0 : s0.hist = {}) (hI : Inv s0) (g0 : Seg)
+    (hg0 : s0.seg = some g0) (hwf : g0.WF) (ops : List Op') (hok : SessOK' s0 ops) :
+    WInv (run s0 ops) ∧
+    (∀ pre, pre <+: ops → WInv (run s0 pre)) ∧
+    (run s0 ops).Forest ∧ SegOK (run s0 ops) ∧ (run s0 ops).ids.Nodup ∧
+    (∀ r ∈ (run s0 ops).nodes, r.id ≠ 0) ∧ (∀ g, (run s0 ops).seg = some g → g.WF) ∧
+    coreWith (AKeys s0) (run s0 ops) = run (coreWith (AKeys s0) s0) (ops.map (coreOp (AKeys s0))) := by
+  have hs : s0.seg.isSome = true := by rw [hg0]; rfl
+  obtain ⟨hw, hc⟩ := winv_reach s0 h0 hs hI ops hok
+  refine ⟨hw, fun pre hp => ?_, hw.forest, hw.segOK, hw.ids_nodup, hw.ids_ne0, ?_, hc⟩
+  · obtain ⟨rest, rfl⟩ := hp
+    exact (winv_reach s0 h0 hs hI pre (sessOK'_append pre rest s0 hok)).1
+  · exact wf_run (fun g hg => by rw [hg0] at hg; cases hg; exact hwf) ops
+example : WInv (run XA exSessX) ∧ SegOK (run XA exSessX) ∧
+    ¬ Inv (run XA exSessX) ∧ (run XA exSessX).hist.undo.length = 4 :=
+  have h := C10_weak_invariant_reach XA XA_hist XA_inv gA XA_seg (by decide) exSessX exSessX_ok
+  ⟨h.1, h.2.2.2.1, fun hi => absurd (hi.node.cur ⟨4, [1,0,0,0, 2,3,3,0, 5,0,0,0, 4,4,0,0]⟩ (by decide) 5 2 (by decide) 10 (by decide))
+    (by decide), by decide⟩
+#print axioms C10_weak_invariant_reach
+
+/-
+  Full statement (C10, "once a feature is enabled with recomputation all its values equal the
+  reference values for the current state, for any order of enabling, disabling and editing"):
+    the theorem below for EVERY operation list over edits, undo, redo, enable, disable.
+  Proved: for the lists admissible in the sense of `SessOK'`.  Missing: sessions in which the
+  track-id or the lineage feature is recomputed (`enable [track id / lineage id] true`) or disabled
+  in the middle — there the bundle invariant is genuinely lost (`C10_inv_not_preserved_tid`,
+  `C10_inv_not_preserved_lin`) and the simulation argument does not apply (later add-node edits read
+  the stale track-id lookup).  The FINAL `enable` may name any key, also those two.
+-/
+/-- PARTIAL (see above). At every state reached by an admissible session — edits, undo, redo,
+    queries, `enable` / `disable` of measurement features in any order — an accepted
+    `enable ks true` makes every value of every key of `ks` current, whatever is stored, registered
+    or active at that moment: every regionprops key of `ks` is active afterwards and its stored
+    value on EVERY node is the mask of the current array; if the IoU key is in `ks` the IoU feature
+    is active and every edge carries `iouOf` of the final state; if the track-id / lineage key is
+    in `ks`, equal id ⇔ same unbranched segment / connected.  (`MeasOK` restricted to `ks`.) -/
+theorem C10_current_after_enable_reach_partial (s0 : St) (h0 : s0.hist = {}) (hI : Inv s0)
+    (hwf : ∀ g, s0.seg = some g → g.WF) (ops : List Op') (hok : SessOK' s0 ops)
+    (ks : List Key) (s' : St) (he : (run s0 ops).enable ks true = some s') :
+    (∀ g, s'.seg = some g → (run s0 ops).seg = some g ∧
+      (∀ k ∈ ks, k ∈ s0.rpAvail → k ∈ s'.rpActive ∧
+        ∀ r ∈ s'.nodes, alook k r.other = some (Val.mask (g.pixelsOf r.time r.id))) ∧
+      (∀ k, s0.iouKey = some k → k ∈ ks → s'.iouActive = true ∧
+        ∀ er ∈ s'.edges, alook k er.attrs = some (s'.iouOf er.e))) ∧
+    (s0.seg.isSome = true →
+      (keyTid ∈ ks → ∀ a b, a ∈ s'.ids → b ∈ s'.ids → (s'.tidOf a = s'.tidOf b ↔ s'.SameSeg a b)) ∧
+      (keyLin ∈ ks → ∀ a b, a ∈ s'.ids → b ∈ s'.ids → (s'.linOf a = s'.linOf b ↔ s'.Conn a b))) := by
+  have hav : avail (run s0 ops) = avail s0 := avail_run s0 ops
+  simp only [avail, Prod.mk.injEq] at hav
+  constructor
+  · intro g hg
+    have hsg : (run s0 ops).seg = some g := by rw [← (R2G.Fs.enable he).seg]; exact hg
+    cases hg0 : s0.seg with
+    | none => rw [seg_none_run hg0 ops] at hsg; cases hsg
+    | some g0 =>
+      obtain ⟨hw, -⟩ := winv_reach s0 h0 (by rw [hg0]; rfl) hI ops hok
+      have hgwf : g.WF := wf_run hwf ops g hsg
+      obtain ⟨-, e2, e3⟩ := C10_enable_current (run s0 ops) s' ks g hsg hgwf hw.ids_nodup hw.ids_ne0 hw.segOK he
+      refine ⟨hsg, fun k hk ha => e2 k hk (by rw [hav.1]; exact ha), fun k hk hm => e3 k (by rw [hav.2]; exact hk) hm⟩
+  · intro hs
+    obtain ⟨hw, -⟩ := winv_reach s0 h0 hs hI ops hok
+    exact C10_enable_ids_current (run s0 ops) s' ks hw.forest he
+/-- after `exSessX` the area key 10 is active but node 5 has no value (it was deleted and restored
+    while area was off, then area was enabled WITHOUT recomputation) and the IoU is off with stale
+    values; `enable [10, 11] true` makes everything current -/
+example : ∃ s', (run XA exSessX).enable [10, 11] true = some s' ∧
+    (run XA exSessX).nodes.map (fun r => alook 10 r.other) =
+      [some (.mask [0]), some (.mask [4]), some (.mask [5, 6]), some (.mask [12, 13]), none] ∧
+    s'.nodes.map (fun r => (r.id, alook 10 r.other)) =
+      [(1, some (.mask [0])), (2, some (.mask [4])), (3, some (.mask [5, 6])), (4, some (.mask [12, 13])),
+       (5, some (.mask [8]))] ∧
+    s'.edges.map (fun r => (r.e, alook 11 r.attrs)) = [((1, 3), some .zero), ((2, 4), some (.iou 1 2))] ∧
+    (∀ r ∈ s'.nodes, alook 10 r.other =
+      some (Val.mask ((⟨4, [1,0,0,0, 2,3,3,0, 5,0,0,0, 4,4,0,0]⟩ : Seg).pixelsOf r.time r.id))) := by
+  refine ⟨_, enable_eq _ [10, 11] true (by decide), by decide, by decide, by decide, ?_⟩
+  have h := (C10_current_after_enable_reach_partial XA XA_hist XA_inv
+    (fun g hg => by rw [XA_seg] at hg; cases hg; decide) exSessX exSessX_ok [10, 11] _
+    (enable_eq _ [10, 11] true (by decide))).1 ⟨4, [1,0,0,0, 2,3,3,0, 5,0,0,0, 4,4,0,0]⟩ (by decide)
+  exact (h.2.1 10 (by decide) (by decide)).2
+#print axioms C10_current_after_enable_reach_partial
+
+/-! ## Part 3 — a disabled feature is frozen -/
+
+namespace Ft.R5B
+/-- `exSeg` with current area values (key 10) -/
+def exCurS : St := exSeg.rpCompute [10]
+
+/-- run after `disable [10]`: delete node 2, undo, enable and recompute the IoU (key 11), add an
+    edge, a redo with nothing to redo, a refused update of key 10 itself, delete node 4, undo,
+    disable the IoU -/
+def exSessF : List Op' :=
+  [.delNode 2, .undo, .enable [11] true, .addEdge (3, 5) false, .redo, .updAttrs 1 [(10, .tok 3)],
+   .delNode 4, .undo, .disable [11]]
+
+/-- a state in which key 10 is off and unregistered, node 2 stores `mask [4]` under it, and the
+    history holds a `DeleteNode` of node 2 recorded with another value of key 10 -/
+def exBadHist : St :=
+  { R2G.exOffStale with
+    hist := { undo := [[.delNode ⟨2, 1, 2, some 1, [(7, .tok 1), (10, .mask [9])]⟩ none]], redo := [] } }
+end Ft.R5B
+
+/-
+  Full statement (C10, "a disabled feature is no longer changed by edits" at whole-history
+  strength): after `disable [k]`, for EVERY operation list without `enable` of `k`, the stored value
+  of `k` on every node and every edge that survives is unchanged.
+  Proved below: the node part, for every operation list (no admissibility at all), under the
+  condition that the `DeleteNode`s recorded in the history at the start carry no value of `k`.
+  Missing: (i) histories that still hold `DeleteNode`s recorded while `k` was registered — on
+  reachable states their undo re-creates a node that is absent (so the statement holds), but that needs
+  the timeline argument; without it the claim is false (`C10_disabled_frozen_needs_record_condition`);
+  (ii) the edge part (the IoU key on edges).
+-/
+/-- PARTIAL (see above). -/
+theorem C10_disabled_frozen_reach_partial (s1 : St) (k : Key) (hk : k ∈ s1.annotKeys)
+    (hoff : k ∉ s1.rpActive) (hunreg : k ∉ s1.regNode) (hH : HistP (FzP k) s1)
+    (ops : List Op') (hops : ∀ op ∈ ops, FzAdm k op) :
+    (∃ dels extra, col k (run s1 ops) = R2G.colDrop k s1 dels ++ extra ∧
+        (∀ p ∈ extra, p.1 ∉ (R2G.colDrop k s1 dels).map (·.1)) ∧
+        (∀ p ∈ col k s1, p.1 ∉ dels → p ∈ col k (run s1 ops))) ∧
+    k ∉ (run s1 ops).rpActive ∧ k ∉ (run s1 ops).regNode ∧ HistP (FzP k) (run s1 ops) := by
+  obtain ⟨h1, h2⟩ := fz_run (k := k) (c0 := col k s1) ops s1 ⟨FrzL.refl _, hoff, hunreg, hk⟩ hH hops
+  obtain ⟨dels, extra, he, hf⟩ := h1.frz
+  refine ⟨⟨dels, extra, he, hf, fun p hp hd => ?_⟩, h1.off, h1.unreg, h2⟩
+  rw [he]
+  apply List.mem_append_left
+  unfold dropC
+  rw [List.mem_filter]
+  exact ⟨hp, by simpa using hd⟩
+-- `exCurS`: area current on all five nodes; disable it, run `exSessF`: nodes 1, 3, 5 survive with
+-- their values, nodes 2 and 4 were deleted and re-created (without the unregistered key)
+example : (exCurS.step (.disable [10])).2 = .ok ∧ (∀ op ∈ exSessF, FzAdm 10 op) ∧
+    HistP (FzP 10) (exCurS.step (.disable [10])).1 ∧
+    col 10 (exCurS.step (.disable [10])).1 =
+      [(1, some (.mask [0])), (2, some (.mask [4, 5])), (3, some (.mask [6])), (4, some (.mask [12, 13])),
+       (5, some (.mask [8]))] ∧
+    col 10 (run (exCurS.step (.disable [10])).1 exSessF) =
+      R2G.colDrop 10 (exCurS.step (.disable [10])).1 [2, 4] ++ [(2, none), (4, none)] ∧
+    col 10 (run (exCurS.step (.disable [10])).1 exSessF) =
+      [(1, some (.mask [0])), (3, some (.mask [6])), (5, some (.mask [8])), (2, none), (4, none)] := by
+  refine ⟨by decide, ?_, ?_, by decide, by decide, by decide⟩
+  · intro op hop
+    simp only [exSessF, List.mem_cons, List.mem_nil_iff, or_false] at hop
+    rcases hop with rfl | rfl | rfl | rfl | rfl | rfl | rfl | rfl | rfl <;>
+      first | trivial | (show (10 : Key) ∉ _; decide)
+  · intro a ha
+    rcases ha with ha | ha <;> cases ha
+#print axioms C10_disabled_frozen_reach_partial
+
+/-- right after an accepted `disable` naming `k` the hypotheses on the state hold -/
+theorem C10_disabled_frozen_after_disable (s s1 : St) (ks : List Key) (k : Key) (hk : k ∈ ks)
+    (hd : s.disable ks = some s1) :
+    k ∈ s1.annotKeys ∧ k ∉ s1.rpActive ∧ k ∉ s1.regNode ∧ s1.hist = s.hist := by
+  unfold disable at hd
+  split at hd
+  · cases hd
+  · rename_i hany
+    injection hd with hd
+    subst hd
+    refine ⟨?_, fun hm => ?_, fun hm => ?_, rfl⟩
+    · show k ∈ s.annotKeys
+      apply Classical.byContradiction
+      intro hn
+      exact hany (any_eq_true.2 ⟨k, hk, by simpa using hn⟩)
+    · have := (List.mem_filter.1 hm).2
+      simp [hk] at this
+    · have := (List.mem_filter.1 hm).2
+      simp [hk] at this
+example : ∃ s1, exCurS.disable [10] = some s1 ∧ 10 ∈ s1.annotKeys ∧ 10 ∉ s1.rpActive ∧ 10 ∉ s1.regNode := by
+  cases hd : exCurS.disable [10] with
+  | none => unfold disable at hd; rw [if_neg (by decide)] at hd; cases hd
+  | some s1 =>
+    have h := C10_disabled_frozen_after_disable exCurS s1 [10] 10 (by decide) hd
+    exact ⟨s1, rfl, h.1, h.2.1, h.2.2.1⟩
+#print axioms C10_disabled_frozen_after_disable
+
+/-- WITNESS. The condition on the recorded `DeleteNode`s cannot be dropped from the timeline-free
+    statement: in `exBadHist` key 10 is an annotator key, off and unregistered; `undo` succeeds, no
+    node is deleted or created, and the stored value of key 10 on node 2 changes. -/
+theorem C10_disabled_frozen_needs_record_condition :
+    10 ∈ exBadHist.annotKeys ∧ 10 ∉ exBadHist.rpActive ∧ 10 ∉ exBadHist.regNode ∧
+    (exBadHist.step .undo).2 = .bool true ∧ (exBadHist.step .undo).1.ids = exBadHist.ids ∧
+    col 10 exBadHist = [(1, none), (2, some (.mask [4])), (3, none), (4, none), (5, none)] ∧
+    col 10 (exBadHist.step .undo).1 = [(1, none), (2, some (.mask [9])), (3, none), (4, none), (5, none)] := by
+  decide
+#print axioms C10_disabled_frozen_needs_record_condition
